@@ -86,9 +86,15 @@ def run_case(case):
             mon.count('inputs_on_uncleared_calculator', k > 0)
             # (a) stub
             stub = T.GFstub(real, tor, exact_eta=True)
-            diff.GFcalc = stub
-            diff.clearcache()
-            Ls = [np.array(x) for x in diff.Lij(*args)]
+            if len(diff.OSindices) >= 2 and len(diff.sitelist) >= 2:
+                # torus stand-in not usable (several Wyckoff sets carry origin states: the origin-state block can even be singular
+                # in the torus gauge); only its bias correction is compared, the clauses on Ls are skipped below
+                stub.SetRates(np.ones(len(args[0])), args[0], np.ones(len(args[3])), args[3])
+                Ls = Lr
+            else:
+                diff.GFcalc = stub
+                diff.clearcache()
+                Ls = [np.array(x) for x in diff.Lij(*args)]
             # (c) gauge
             C = float(rng.uniform(0.5, 3)) * np.exp(np.min(args[3]))
             diff.GFcalc = T.GaugeGF(real, C)
